@@ -241,6 +241,53 @@ fn check(case: &Case, obs: &mut Obs) -> Verdict {
             }
         }
     }
+    // detached interfaces take the tag as its own byte string: a tag with bytes appended or removed
+    // must never lead to plaintext (it is rejected when the tag is deserialised, or by the AEAD)
+    for i in 0..sealed.len() {
+        let (ct, m) = &sealed[i];
+        let split = ct.len() - nt;
+        let tag = &ct[split..];
+        let mut tags: Vec<(String, Vec<u8>)> = Vec::new();
+        for n in 1..=17usize {
+            let mut t = tag.to_vec();
+            t.extend(std::iter::repeat(0u8).take(n));
+            tags.push((format!("tag with {} zero bytes appended", n), t));
+            let mut t = tag.to_vec();
+            t.extend(tag.iter().cycle().take(n));
+            tags.push((format!("tag with {} of its own bytes appended", n), t));
+            let mut t = vec![0u8; n];
+            t.extend_from_slice(tag);
+            tags.push((format!("tag with {} zero bytes prepended", n), t));
+        }
+        for l in 0..nt {
+            tags.push((format!("tag truncated to {} bytes", l), tag[..l].to_vec()));
+        }
+        let mut rcv = match fresh_receiver(d, sess, &keys, &enc, &sealed, i) {
+            Ok(r) => r,
+            Err(v) => return v,
+        };
+        for (what, t) in &tags {
+            rcv.set_seq(i as u64);
+            let mut buf = ct[..split].to_vec();
+            obs.inner_checks += 1;
+            if let Ok(()) = rcv.open_in_place(&mut buf, &m.aad, t) {
+                return Verdict::fail(
+                    "C06/open-in-place/accepted-modified-tag-length",
+                    format!("message {} ({} pt bytes): open_in_place_detached accepted a {} ({} bytes) and left {} ({} mode {})", i, m.pt.len(), what, t.len(), hex_short(&buf), suite.label(), sess.mode),
+                );
+            }
+            if i == 0 {
+                let mut buf = ct[..split].to_vec();
+                obs.inner_checks += 1;
+                if let Ok(()) = d.single_shot_open_in_place(&mr, &keys.sk_r, &enc, &sess.info, &mut buf, &m.aad, t) {
+                    return Verdict::fail(
+                        "C06/single-shot-open-in-place/accepted-modified-tag-length",
+                        format!("single_shot_open_in_place_detached accepted a {} ({} bytes) ({} mode {})", what, t.len(), suite.label(), sess.mode),
+                    );
+                }
+            }
+        }
+    }
     obs.nontrivial = has_aad_flip && has_cross;
     Verdict::Pass
 }
@@ -251,7 +298,7 @@ impl Property for P {
         "C06"
     }
     fn rule(&self) -> String {
-        "Generated: (sealing suite, mode, session, 1..=3 messages); per message a variant family: every single-bit flip of ct||tag and of aad (exhaustive for <=96 bytes, all tag bits + 256 sampled positions otherwise), every truncation length, extensions by 1..=17 bytes (zeros / pattern / tag copy / prepended), aad emptied/shortened/extended, tag, aad and whole ciphertext substituted from the other messages of the same context. \
+        "Generated: (sealing suite, mode, session, 1..=3 messages); per message a variant family: every single-bit flip of ct||tag and of aad (exhaustive for <=96 bytes, all tag bits + 256 sampled positions otherwise), every truncation length, extensions by 1..=17 bytes (zeros / pattern / tag copy / prepended), aad emptied/shortened/extended, tag, aad and whole ciphertext substituted from the other messages of the same context; for the detached interfaces also tags with 1..=17 bytes appended/prepended and tags truncated to 0..Nt-1 bytes. \
          Each variant is opened at the right position through open and open_in_place_detached (one receiver repositioned through the hook, every 16th variant on a fresh receiver advanced by honest opens) and, for the first message, through single_shot_open and single_shot_open_in_place_detached. \
          Oracle: every attempt returns Err(OpenError); an in-place failure must not leave the plaintext (>=16 bytes) in the buffer; positive control per message. \
          Non-trivial: a case whose families contain aad flips and a cross-message substitution; evaluations counts cases, inner_oracle_comparisons counts open attempts."
